@@ -298,3 +298,12 @@ M("C16", "helper-tangential", HELPER, "tangential * self.n / (6 * np.pi)", "tang
 M("C16", "helper-vbar-accel", HELPER, "        accel = (self._mat3 @ [-1, 0, 0]) * 2 * self.n * dv", "        accel = (self._mat3 @ [-1, 0, 0]) * self.n * dv", "R16.4")
 M("C16", "helper-eccentric-axis", HELPER, "        dv = (self._mat3 @ [-1, 0, 0]) * tangential * self.n / 4", "        dv = (self._mat3 @ [1, 0, 0]) * tangential * self.n / 4", "R16.4")
 M("C16", "helper-coelliptic", HELPER, "        return 1.5 * self.n * radial", "        return 2 * self.n * radial", "R16.4")
+
+M("C01", "kep2cart-vz-sign", FORMS, "vz = z * h * e / (r * p) * sin(ν) + h / r * sin(i) * cos(ω + ν)", "vz = z * h * e / (r * p) * sin(ν) - h / r * sin(i) * cos(ω + ν)", "R01.11")
+M("C01", "kep2cart-x", FORMS, "x = r * (cos(Ω) * cos(ω + ν) - sin(Ω) * sin(ω + ν) * cos(i))", "x = r * (cos(Ω) * cos(ω + ν) + sin(Ω) * sin(ω + ν) * cos(i))", "R01.11")
+M("C01", "kep2cart-r", FORMS, "        r = p / (1 + e * cos(ν))\n        h = sqrt(body.µ * p)", "        r = p / (1 - e * cos(ν))\n        h = sqrt(body.µ * p)", "R01.11")
+M("C01", "equi-inclination", FORMS, "        i = 2 * arctan(sqrt(ix ** 2 + iy ** 2))", "        i = arctan(sqrt(ix ** 2 + iy ** 2))", "R01.10")
+M("C01", "equi-arctan-args", FORMS, "        ω = (arctan2(ey, ex) - Ω) % (2 * np.pi)", "        ω = (arctan2(ex, ey) - Ω) % (2 * np.pi)", "R01.10")
+M("C01", "circ-anomaly", FORMS, "        ω = arctan2(ey / e, ex / e)\n        ν = u - ω", "        ω = arctan2(ey / e, ex / e)\n        ν = u + ω", "R01.10")
+M("C01", "equi-encoder", FORMS, "        iy = tan(i / 2) * sin(Ω)", "        iy = tan(i / 2) * sin(ω)", "R01.10")
+R("C01", "refactor-kep2cart", FORMS, "        z = r * sin(i) * sin(ω + ν)", "        u_ = ω + ν\n        z = sin(u_) * r * sin(i)")
